@@ -25,12 +25,14 @@ TECHNIQUE = "runtime monitoring: capacity-counter + FIFO reference model compare
 RULE = ("E1: all histories over {acquire (hold | release inside the grant callback | acquire again inside the "
         "grant callback), release by holder h, cancel acquisition a (pending, or granted once), run(f succeeds | "
         "f raises | f returns an unfired Deferred), fire f's Deferred ok/fail, cancel a run Deferred (pending or "
-        "waiting on f's Deferred)} for DeferredLock and DeferredSemaphore(1..3) to depth 10 (quick) / 12 (thorough) "
+        "waiting on f's Deferred)} for DeferredLock and DeferredSemaphore(1..3) to depth 10 (quick) / 11 (thorough) "
         "with at most 4 (quick) / 5 (thorough) live requests, pruned by hashing (model state, real waiting length, locked/tokens); plus "
         "random histories of 2000 steps with up to 8 live requests.  A case is one history (primitive, action "
         "list); non-trivial = at least two actions.")
 ASSUMPTIONS = ["trusted base: the 50-line reference model in this module",
-               "release() is observed by subclassing the primitive and overriding the public release()"]
+               "release() is observed by subclassing the primitive and overriding the public release()",
+               "the exhaustive part bounds the number of simultaneously live requests (4 quick / 5 thorough); "
+               "longer queues are reached only by the random histories (up to 8 live requests)"]
 SHARDS = {"quick": 4, "thorough": 16}
 FLOORS = {"step_comparisons": 5000, "grants": 2000, "queued_then_granted": 300, "cancelled_pending": 200,
           "cancel_of_granted": 100, "run_releases": 500, "run_cancel_reached_function_deferred": 50,
@@ -384,14 +386,14 @@ def classify(action, exp, got, queued_before):
 
 
 def run(ctx):
-    depth = 10 if ctx.quick else 12
+    depth = 10 if ctx.quick else 11
     for ci, (prim, limit) in enumerate(CONFIGS):
         def mk(prim=prim, limit=limit):
             return World(ctx, prim, limit, cap=4 if ctx.quick else 5)
 
         def on_node(w, history, ci=ci):
             ctx.evaluated()
-            if len(history) >= 2 and ctx.n_distinct < 60000:   # every DFS node is a different history; keep the hash set small
+            if len(history) >= 2 and ctx.n_distinct < 40000:   # every DFS node is a different history; keep the hash set small
                 ctx.distinct((ci, tuple(history)))
             if len(history) == depth and len(w.log) > 10:
                 ctx.sample({"primitive": w.prim, "limit": w.limit, "history": list(w.hist), "events": list(w.log)}, limit=3)
